@@ -33,13 +33,16 @@ def arr_of(eng, st, v):
         if isinstance(o, ListV):
             return list_arr(eng, st, list(o.items))
         if isinstance(o, SymListV):
-            return ArrV((o.n,), o.at, 'obj')
+            return ArrV((o.n,), o.at, o.elem if o.elem in ('real', 'int', 'bool') else 'obj')
     if isinstance(v, (tuple, list)):
         return list_arr(eng, st, list(v))
     return None
 
 
 def list_arr(eng, st, items):
+    if items and all(isinstance(x, Ref) and isinstance(st.heap[x.oid], SymListV) for x in items):
+        rs = [st.heap[x.oid] for x in items]
+        return ArrV((len(rs), rs[0].n), lambda i, j, rs=rs: eng.select([r.at(j) for r in rs], i), 'real')
     if items and all(isinstance(x, Ref) and isinstance(st.heap[x.oid], ArrV) and st.heap[x.oid].ndim == 1 for x in items):
         rs = [st.heap[x.oid] for x in items]
         if not all(isinstance(r.shape[0], int) for r in rs):
